@@ -248,14 +248,36 @@ const (
 	stClosedMiddle
 	stRenumbered
 	stReaddir
+	// environment states of the pre-opened directory (descriptor 3): the table is 0,1,2,3 and the host
+	// directory behind 3 is not a usable directory. No other descriptor is open; the symbolic
+	// descriptors "file" and "dir" resolve to the preopen itself, "closed" to 4.
+	stPreMissing // the host path never existed
+	stPreRemoved // existed when the module was instantiated, removed before the first WASI call
+	stPreIsFile  // the host path is a regular file
 	nStates
 )
 
-var stateName = [nStates]string{"fresh", "after-open-x3", "after-close-of-middle", "after-renumber", "after-readdir"}
+// envStatesEnabled switches the three preopen-environment states into the plans (false restores
+// the enumeration exactly as it was before they were added).
+const envStatesEnabled = true
+
+var stateName = [nStates]string{"fresh", "after-open-x3", "after-close-of-middle", "after-renumber", "after-readdir",
+	"preopen-missing", "preopen-removed-before-first-use", "preopen-is-a-file"}
+
+func isEnvState(st int) bool { return st >= stPreMissing && st < nStates }
 
 // In every non-fresh state: path_open file.txt -> 4, fil2.txt -> 5, subdir00 (O_DIRECTORY) -> 6.
 // closed-middle: fd_close(5). renumbered: fd_renumber(4, 9). readdir: fd_readdir(6, ..., cookie 0).
 func resolveFd(v uint64, st int) uint64 {
+	if isEnvState(st) {
+		switch v {
+		case symFile, symDir:
+			return 3
+		case symClosed:
+			return 4
+		}
+		return v
+	}
 	switch v {
 	case symFile:
 		if st == stRenumbered {
